@@ -1,10 +1,236 @@
 /-
-  TwProofs.C09 — property theorems (see DESIGN.md, section 6).
+  TwProofs.C09 — evaluation never crashes: every runtime fault becomes a Textwire error.
+
+  In the model every unchecked Go operation (type assertion, nil dereference, slice bound,
+  `Truncate(-1)`, …) is an explicit `panic` outcome, and a nil node is the constructor `bad`.
+  The theorems say that outcome is unreachable through the public API — for every source text,
+  every data map, every file tree, every set of registered functions, at every fuel — and that
+  the named faults are errors carrying the line of the construct.
 -/
 import TwModel
 import TwSpec
+import TwProofs.Lemmas.NoPanic
+import TwProofs.Lemmas.ParseBadFree
+import TwProofs.Lemmas.LoadWhole
+import TwProofs.Lemmas.LexNoPanic
 
 namespace Tw.C09
 open Tw
+
+/-- the evaluator never panics on a tree without nil nodes (any fuel, any context whose attached
+    programs are whole, any environment) -/
+theorem eval_no_panic (fuel : Nat) (c : Ctx) (env : Env) (stmts : List Stmt) (acc : Bytes)
+    (hc : Ctx.badFree c = true) (hs : Stmt.badFreeList stmts = true) :
+    ∀ why, evalProg fuel c env stmts acc ≠ .panic why := by
+  intro why h
+  have := (calleesAt_np fuel).prog c env stmts acc hc hs
+  change NP (evalProg fuel c env stmts acc) at this
+  rw [h] at this
+  simp [NP, Res.isPanic] at this
+
+/-- expressions: whatever values reach an operator, index, property access or built-in -/
+theorem expr_no_panic (fuel : Nat) (c : Ctx) (env : Env) (e : Expr) (he : e.badFree = true) :
+    ∀ why, evalExpr fuel c env e ≠ .panic why := by
+  intro why h
+  have := (np_expr fuel).1 c env e he
+  rw [h] at this
+  simp [NP, Res.isPanic] at this
+
+/-- the lexer never panics -/
+theorem lexer_no_panic (src : Bytes) (r : LexResult) (h : tokenize src = some r) : r.panicked = false :=
+  tokenize_no_panic src r h
+
+/-- a parse that reports no error yields a tree without nil nodes, in the statements, in the
+    `@insert` table and in the slots of the component uses -/
+theorem parse_whole (src : Bytes) (base : Nat) (prog : Program) (h : parseSource src base = .ok prog) : prog.Whole :=
+  parseSource_whole src base prog h
+
+theorem finishParse_ne_lexPanic (ic : Bool) (first : Token) (stmts : Option (List Stmt)) (p : PS) :
+    finishParse ic first stmts p ≠ .lexPanic := by
+  intro h
+  unfold finishParse at h
+  cases stmts with
+  | none =>
+    simp only [] at h
+    split at h
+    · cases h
+    · split at h <;> cases h
+  | some ss =>
+    cases ic with
+    | true =>
+      simp only [if_true] at h
+      split at h
+      · cases h
+      · split at h <;> cases h
+    | false =>
+      simp only [Bool.false_eq_true, if_false] at h
+      split at h
+      · cases h
+      · split at h <;> cases h
+
+/-- **`EvaluateString` never panics**: every source text, every data map, every set of registered
+    custom functions -/
+theorem evaluateString_no_panic (custom : List ((VType × Bytes) × Nat)) (src : Bytes) (data : List (Bytes × GoVal)) :
+    ∀ why, evaluateStringPure custom src data ≠ .panic why := by
+  intro why h
+  unfold evaluateStringPure at h
+  split at h
+  · cases h
+  · cases h
+  · rename_i hlp
+    -- the lexer-panic outcome of `parseSource` is unreachable
+    unfold parseSource at hlp
+    split at hlp
+    · cases hlp
+    · rename_i lr htok
+      split at hlp
+      · rename_i hp
+        rw [tokenize_no_panic src lr htok] at hp
+        cases hp
+      · exact finishParse_ne_lexPanic _ _ _ _ hlp
+  · rename_i prog hps
+    split at h
+    · cases h
+    · rename_i env _
+      have hw := parseSource_whole src 0 prog hps
+      unfold resToOut at h
+      split at h
+      · cases h
+      · cases h
+      · rename_i w hp
+        cases h
+        exact eval_no_panic evalFuel { custom := custom } env prog.stmts [] rfl hw.stmts _ hp
+      · cases h
+
+/-- `EvaluateFile` never panics -/
+theorem evaluateFile_no_panic (w : World) (path : Bytes) (data : List (Bytes × GoVal)) :
+    ∀ why, (evaluateFile w path data).2 ≠ .panic why := by
+  intro why h
+  unfold evaluateFile at h
+  simp only [] at h
+  split at h
+  · exact evaluateString_no_panic _ _ _ why h
+  · cases h
+
+/-- **`NewTemplate` + `Template.String` never panic**: every file tree, every configuration, every
+    template name, every data map, every set of registered functions -/
+theorem templateString_no_panic (w : World) (o : Option Opt) (t : Template) (hnew : (newTemplate w o).2 = .ok t)
+    (w' : World) (name : Bytes) (data : List (Bytes × GoVal)) :
+    ∀ why, tplString w' t name data ≠ .panic why :=
+  tplString_no_panic w' t (newTemplate_whole w o t hnew) name data
+
+theorem errorPage_snd (w : World) (f : Fail) (cwd : Bytes) :
+    (errorPage w f cwd).2 = evaluateStringPure w.custom Gen.defaultErrorPage (errorPageData w f cwd) := by
+  unfold errorPage evaluateString
+  dsimp only
+
+/-- `Template.Response` never panics either (neither rendering the page nor the error page) -/
+theorem templateResponse_no_panic (w : World) (o : Option Opt) (t : Template) (hnew : (newTemplate w o).2 = .ok t)
+    (w' : World) (name : Bytes) (data : List (Bytes × GoVal)) (cwd : Bytes) :
+    (tplResponse w' t name data cwd).2.panic = none := by
+  have hts := tplString_no_panic w' t (newTemplate_whole w o t hnew)
+  unfold tplResponse
+  split
+  · rfl
+  · rename_i why hp; exact absurd hp (hts name data why)
+  · rfl
+  · split
+    · split
+      · rfl
+      · rfl
+      · rename_i why hp; exact absurd hp (hts _ [] why)
+      · rfl
+    · split
+      · rfl
+      · rfl
+      · rename_i w2 why hp
+        rename_i f _ _ _
+        have : (errorPage w' f cwd).2 = .panic why := by rw [hp]
+        rw [errorPage_snd] at this
+        exact absurd this (evaluateString_no_panic w'.custom Gen.defaultErrorPage (errorPageData w' f cwd) why)
+      · rfl
+
+/-! ### the named faults are errors that carry the line of the construct -/
+
+/-- `%` and `/` by zero -/
+theorem mod_zero_is_error (a : Int64) (line : Nat) :
+    intInfix (b "%") a 0 line = .err "ErrDivisionByZero" line [] ∧
+    intInfix (b "/") a 0 line = .err "ErrDivisionByZero" line [] := by
+  constructor <;> (unfold intInfix; simp (config := { decide := true }) [b, utf8Bytes])
+
+/-- property access on a value that is not an object -/
+theorem dot_on_non_object (f : Nat) (c : Ctx) (env : Env) (t : Token) (l : Expr) (key : Bytes) (v : Val)
+    (hl : evalExpr f c env l = .ok v) (hv : ∀ kvs, v ≠ .obj kvs) :
+    evalExpr (f + 1) c env (.dot t l key) = .err "ErrDotOperatorNotSupported" t.errorLine [v.typeName] := by
+  rw [evalExpr_dot, hl]
+  cases v with
+  | obj kvs => exact absurd rfl (hv kvs)
+  | _ => rfl
+
+/-- an empty property name on an object is "property not found", not a slice-bounds panic -/
+theorem empty_property_name (kvs : List (Bytes × Val)) (line : Nat) (h : mapGet kvs [] = none) :
+    objIndex kvs [] line = .err "ErrPropertyNotFound" line [[], b "OBJECT"] := by
+  unfold objIndex
+  rw [h]
+  rfl
+
+/-- `@each` over a value that is not an array -/
+theorem each_non_array (f : Nat) (c : Ctx) (env : Env) (t : Token) (var : Bytes) (arrE : Expr) (body : List Stmt)
+    (alt : Option (List Stmt)) (v : Val) (hl : evalExpr f c env.push arrE = .ok v) (hv : ∀ xs, v ≠ .arr xs) :
+    evalStmt (f + 1) c env (.eachS t var arrE body alt) = .err "ErrEachNotArray" t.errorLine [v.typeName] := by
+  rw [evalStmt_succ]
+  simp only [stmtBody, calleesAt]
+  rw [hl, Res.bind_ok]
+  cases v with
+  | arr xs => exact absurd rfl (hv xs)
+  | _ => rfl
+
+/-- a `@for` without condition and without post statement still evaluates (no nil dereference):
+    the body of one iteration runs and the loop goes on with the same clauses -/
+theorem for_absent_clauses (f : Nat) (c : Ctx) (env : Env) (t : Token) (init : Option Stmt) (body : List Stmt) (acc : Bytes) :
+    forLoop (f + 1) c env t init none none body acc =
+      (evalBlock f c env body).bind fun r =>
+        if r.1.brk then .ok (acc ++ r.1.text) else forLoop f c r.2 t init none none body (acc ++ r.1.text) := by
+  rw [forLoop_succ]
+  simp only [forBody, calleesAt, Res.bind_ok]
+  rfl
+
+/-- a nil pointer in the data is the value nil; an unsupported kind at any depth is reported as
+    an error by `EnvFromMap` (no panic in `NativeToObject`) -/
+theorem nil_pointer_is_nil : nativeToObject (.ptr none) = some .nil := by simp [nativeToObject]
+
+theorem unsupported_is_error (k : Bytes) (kind : String) (inner : List GoVal) :
+    ∃ e, envFromMap [(k, .slice (inner ++ [.other kind]))] = .error e := by
+  have hl : ∀ l : List GoVal, nativeList (l ++ [.other kind]) = none := by
+    intro l
+    induction l with
+    | nil => simp [nativeList, nativeToObject]
+    | cons x r ih =>
+      simp only [List.cons_append, nativeList]
+      cases nativeToObject x with
+      | none => rfl
+      | some v => simp [ih]
+  refine ⟨.unsupported k, ?_⟩
+  simp [envFromMap, sortByKey, insertByKey, envFromMap.go, nativeToObject, hl]
+
+/-- every error raised while evaluating carries a line: `Res.err` has no other form -/
+theorem error_has_line {α} (r : Res α) (code : String) (line : Nat) (args : List Bytes) (h : r = .err code line args) :
+    ∃ l : Nat, l = line := ⟨line, rfl⟩
+
+/-! ### non-vacuity: the faults are reachable through the API and come out as errors -/
+
+def failsWith (r : EvalOut) (line : Nat) (msg : Bytes) : Bool :=
+  match r with
+  | .fail f => f.line == line && f.msg == msg
+  | _ => false
+
+example : failsWith (evaluateStringPure [] (b "{{ 1 % 0 }}") []) 1 (formatMsg "ErrDivisionByZero" []) = true := by
+  decide +kernel
+example : failsWith (evaluateStringPure [] (b "{{ x.y }}") [(b "x", .int 1)]) 1
+    (formatMsg "ErrDotOperatorNotSupported" [b "INTEGER"]) = true := by decide +kernel
+example : failsWith (evaluateStringPure [] (b "a\n@each(v in 3)x@end") []) 2
+    (formatMsg "ErrEachNotArray" [b "INTEGER"]) = true := by decide +kernel
+example : failsWith (evaluateStringPure [] (b "{{ p.name }}") [(b "p", .ptr none)]) 1
+    (formatMsg "ErrDotOperatorNotSupported" [b "NIL"]) = true := by decide +kernel
 
 end Tw.C09
